@@ -15,7 +15,7 @@ Print Assumptions C10_update.
 
 Theorem C10_new_target : forall old t, afind (t_hash t) old = None ->
   entry_for old t = {| ss_state := t_state t; ss_health := Unknown; ss_series := t_series t; ss_total := t_total t;
-                       ss_times := 0; ss_window := []; ss_err := false |}.
+                       ss_times := 0; ss_window := []; ss_err := false; ss_last := None |}.
 Proof. exact entry_for_new. Qed.
 Print Assumptions C10_new_target.
 
@@ -67,7 +67,7 @@ Theorem C10_restart : forall s a idl now,
   (forall t, In t (all_targets a) ->
      afind (t_hash t) (sc_status s') =
      Some {| ss_state := t_state t; ss_health := Unknown; ss_series := t_series t; ss_total := t_total t;
-             ss_times := 0; ss_window := []; ss_err := false |}) /\
+             ss_times := 0; ss_window := []; ss_err := false; ss_last := None |}) /\
   (all_targets a = [] -> forall t, idl = Some t -> sc_idle s' = Some t) /\
   (all_targets a <> [] -> sc_idle s' = None).
 Proof. exact restart_resumes. Qed.
